@@ -196,9 +196,17 @@ func InducedMSP[E algebra.PrimeFieldElement[E]](f algebra.PrimeField[E], c *CNF)
 
 	// Compute total number of rows (one per shareholder-clause membership).
 	totalRows := 0
+	inSomeClause := hashset.NewComparable[ID]()
 	for _, cl := range clauses {
 		totalRows += cl.Size()
+		inSomeClause.AddAll(cl.List()...)
 	}
+	// A shareholder that lies in every maximal unqualified set occurs in no clause. It still
+	// gets one all-zero row, so that the MSP knows it and accepts the qualified sets that
+	// contain it; its share is constantly zero and carries no information.
+	unclaused := c.shareholders.Difference(inSomeClause.Freeze()).List()
+	slices.Sort(unclaused)
+	totalRows += len(unclaused)
 
 	matrixFactory, err := mat.NewMatrixModule(uint(totalRows), uint(m), f)
 	if err != nil {
@@ -230,6 +238,13 @@ func InducedMSP[E algebra.PrimeFieldElement[E]](f algebra.PrimeField[E], c *CNF)
 			rowsToHolders[rowIdx] = pi
 			rowIdx++
 		}
+	}
+	for _, pi := range unclaused {
+		for range m {
+			rowsInRowMajorForm = append(rowsInRowMajorForm, f.Zero())
+		}
+		rowsToHolders[rowIdx] = pi
+		rowIdx++
 	}
 
 	matrix, err := matrixFactory.NewRowMajor(rowsInRowMajorForm...)
